@@ -15,7 +15,7 @@
 (* re-synchronised from the logged values and validation continues.        *)
 (* The run is accepted only if the DONE line reports every event consumed. *)
 (***************************************************************************)
-EXTENDS Ops, Json, IOUtils, TLCExt, FiniteSets
+EXTENDS Ops, Text, Json, IOUtils, TLCExt, FiniteSets
 
 Tr == JsonDeserialize(IOEnv.TRACE_FILE)
 N  == Len(Tr)
@@ -341,6 +341,51 @@ OpClause(ev) ==
   ELSE IF ev.alias > 0 /\ Len(ev.dig) > Len(dig) /\ ev.dig[Len(ev.dig)] # ev.dig[ev.alias] THEN "alias-digest-differs"
   ELSE "ok"
 
+\* ---------------------------------------------------------------------- C18
+\* the system zone configuration is logged with each event (time.timezone / altzone are seconds WEST of UTC)
+EffMin(ev) == EffectiveOffsetSec(ev.tz, ev.alt, ev.daylight, ev.isdst)
+LocalZoneClause(ev) ==
+  LET e == EffMin(ev) IN
+  IF e % 60 # 0 THEN "ok"                     \* C18 speaks about whole-minute offsets only
+  ELSE LET z == LocalZoneFn(e \div 60) IN
+       IF ~ev.ok THEN "raised-" \o ev.cls
+       ELSE IF ~ev.hint THEN "parts-not-integers"
+       ELSE IF <<ev.h, ev.m>> # z THEN "(hours,minutes)"
+       ELSE IF ev.basic # LocalZoneText(z[1], z[2], "basic") THEN "basic-text"
+       ELSE IF ev.ext # LocalZoneText(z[1], z[2], "extended") THEN "extended-text"
+       ELSE IF ev.red # LocalZoneText(z[1], z[2], "reduced") THEN "reduced-text"
+       ELSE "ok"
+
+EpochInst(m) == <<DayNumCal(m, 1970, 1, 1), 0, 0>>
+FromEpochClause(m, ev) ==
+  LET e == EffMin(ev)  z == LocalZoneFn(e \div 60)  q == ev.q IN
+  IF ~ev.ok THEN "raised-" \o ev.cls
+  ELSE IF ~ValidTP(m, q) THEN "result-invalid"
+  \* a fractional count is handed over as a float: beyond 2^32 s its own spacing exceeds a microsecond (15 us at 10^11 s)
+  ELSE IF ~Near3(Inst(m, q), Plus3(EpochInst(m), ev.n),
+                 IF ev.n[3] # 0 \/ q.frac THEN (IF Abs(ev.n[1]) < 49710 THEN 1 ELSE 20) ELSE 0) THEN "instant"
+  ELSE IF ev.utc /\ ~(q.zh = 0 /\ q.zm = 0) THEN "not-utc"
+  ELSE IF ~ev.utc /\ e % 60 = 0 /\ <<q.zh, q.zm>> # z THEN "not-local-offset"
+  ELSE "ok"
+SinceEpochClause(m, ev) ==
+  LET x == Minus3(Inst(m, ev.p), EpochInst(m)) IN
+  IF ~ev.ok THEN "raised-" \o ev.cls
+  ELSE IF ~ValidTP(m, ev.p) THEN "operand-invalid"
+  ELSE IF ~ev.isint THEN "not-an-integer-text"
+  \* whole-second instants exactly; with a fractional second floor or truncation is accepted (within 1 s)
+  ELSE IF x[3] = 0 /\ ~ev.p.frac THEN (IF <<ev.d, ev.s>> = <<x[1], x[2]>> THEN "ok" ELSE "seconds-since-epoch")
+  ELSE IF Near3(<<ev.d, ev.s, 0>>, <<x[1], x[2], 0>>, 0) \/ Near3(<<ev.d, ev.s, 0>>, Plus3(<<x[1], x[2], 0>>, <<0, 1, 0>>), 0) THEN "ok"
+  ELSE "seconds-since-epoch"
+
+\* C20: truncated + full, and the second application
+TruncAddClause(m, ev) ==
+  IF ~ev.ok THEN "raised-" \o ev.cls
+  ELSE IF ~ValidTP(m, ev.p) THEN "operand-invalid"
+  ELSE LET c == AddTruncClause(m, ev.t, ev.p, ev.q) IN
+       IF c # "ok" THEN c
+       ELSE IF ~(Inst(m, ev.q2) = Inst(m, ev.q) /\ SameZone(ev.q2, ev.q)) THEN "second-application-moves"
+       ELSE "ok"
+
 \* ---------------------------------------------------------------------- the step relation
 Clause(ev) ==
   CASE ev.op = "Begin"    -> "ok"
@@ -368,6 +413,10 @@ Clause(ev) ==
     [] ev.op = "CalQ"     -> CalQClause(mode, ev)
     [] ev.op = "PoolInit" -> "ok"
     [] ev.op = "Op"       -> OpClause(ev)
+    [] ev.op = "LocalZone" -> LocalZoneClause(ev)
+    [] ev.op = "FromEpoch" -> FromEpochClause(mode, ev)
+    [] ev.op = "SinceEpoch" -> SinceEpochClause(mode, ev)
+    [] ev.op = "TruncAdd" -> TruncAddClause(mode, ev)
     [] ev.op = "Raised"   -> "raised-" \o ev.cls
     [] OTHER -> "unknown-event-kind"
 
@@ -390,7 +439,8 @@ Step ==
        /\ dig' = CASE ev.op = "Begin" -> <<>>
                     [] ev.op \in {"PoolInit", "Op"} -> ev.dig
                     [] OTHER -> dig
-       /\ zone' = zone
+       /\ zone' = IF ev.op \in {"LocalZone", "FromEpoch"} THEN [tz |-> ev.tz, alt |-> ev.alt, daylight |-> ev.daylight, isdst |-> ev.isdst]
+                  ELSE zone
   /\ l' = l + 1
 
 Finish ==
